@@ -252,6 +252,24 @@ func (e *Engine) Propose(b *Block, proposerReplica, helper *Replica) (own bool, 
 	return own, nil
 }
 
+// PrepareAlt makes replica r prepare ANOTHER proposal for the height of b (same time, proposer, last commit and evidence,
+// the given transactions): what a proposer does when it proposes again in a later round of the same height. The proposal
+// is not used; r is left with it as its cached own proposal.
+func (e *Engine) PrepareAlt(r *Replica, b *Block, txs [][]byte) (n int, err error) {
+	ext := types.ExtendedCommitInfo{Round: b.LastCommit.Round}
+	for _, v := range b.LastCommit.Votes {
+		ext.Votes = append(ext.Votes, types.ExtendedVoteInfo{Validator: v.Validator, SignedLastBlock: v.SignedLastBlock})
+	}
+	err = Call(func() {
+		pp := r.Mux.PrepareProposal(types.RequestPrepareProposal{
+			MaxTxBytes: 1 << 21, Txs: txs, LocalLastCommit: ext, Misbehavior: b.Misbehavior,
+			Height: b.Height, Time: b.Time, ProposerAddress: b.Proposer.Address,
+		})
+		n = len(pp.Txs)
+	})
+	return n, err
+}
+
 // Execute runs the (already proposed) block on one replica along the given path.
 func (e *Engine) Execute(r *Replica, b *Block, path Path, other *Block) *BlockOutcome {
 	return e.ExecuteWithSide(r, b, path, other, nil)
